@@ -263,8 +263,12 @@ func (g *engine) replay(pc pathCase, extra map[string]any) map[string]any {
 
 // forward sends a packet with the (possibly modified) raw path from the source host.
 func (g *engine) forward(pc pathCase, rawPath []byte, traceroute bool) ([]string, stop, bool) {
+	return g.forwardExt(pc, rawPath, traceroute, extNone)
+}
+
+func (g *engine) forwardExt(pc pathCase, rawPath []byte, traceroute bool, ext int) ([]string, stop, bool) {
 	n := g.w.net
-	raw, err := mkPacket(n.AS[pc.src].IA, n.AS[pc.dst].IA, srcHost, dstHost, rawPath, traceroute)
+	raw, err := mkPacketExt(n.AS[pc.src].IA, n.AS[pc.dst].IA, srcHost, dstHost, rawPath, traceroute, ext)
 	if err != nil {
 		return nil, stop{}, false
 	}
@@ -598,15 +602,19 @@ func (g *engine) c10(pc pathCase, thorough bool) {
 				h.Mac[g.r.Intn(6)] ^= 1 << g.r.Intn(8)
 			}
 			_ = q.SetHopField(h, j)
-			_, st, ok := g.forward(pc, q.Raw, false)
-			if !ok {
-				continue
-			}
-			g.e.Case(fpb+kind, "inject/"+kind+"/"+st.kind, false)
-			if st.kind == "slow" && st.res.SlowType == int(slayers.SCMPTypeParameterProblem) {
-				g.expectReply(pc, st, fmt.Sprintf("%s: %s hop field, SCMP %d/%d raised at %s", base, kind, st.res.SlowType,
-					st.res.SlowCode, n.AS[st.as].IA), "C10/"+kind+"-hop", int(slayers.SCMPTypeParameterProblem), "", 0,
-					map[string]any{"hop": j, "modified_path": hex.EncodeToString(q.Raw)})
+			// the offending packet with and without extension headers (one random variant besides plain)
+			for _, ext := range []int{extNone, 1 + g.r.Intn(3)} {
+				_, st, ok := g.forwardExt(pc, q.Raw, false, ext)
+				if !ok {
+					continue
+				}
+				g.e.Case(fpb+kind+extNames[ext], "inject/"+kind+"/"+extNames[ext]+"/"+st.kind, false)
+				if st.kind == "slow" && st.res.SlowType == int(slayers.SCMPTypeParameterProblem) {
+					g.expectReply(pc, st, fmt.Sprintf("%s: %s hop field (%s packet), SCMP %d/%d raised at %s", base, kind,
+						extNames[ext], st.res.SlowType, st.res.SlowCode, n.AS[st.as].IA), "C10/"+kind+"-hop",
+						int(slayers.SCMPTypeParameterProblem), "", 0,
+						map[string]any{"hop": j, "extensions": extNames[ext], "modified_path": hex.EncodeToString(q.Raw)})
+				}
 			}
 		}
 		// (e) router alert on this hop: traceroute request, and (f) a plain UDP packet with the flag
@@ -631,13 +639,19 @@ func (g *engine) c10(pc pathCase, thorough bool) {
 				h.EgressRouterAlert = true
 			}
 			_ = q.SetHopField(h, j)
-			for _, tracer := range []bool{true, false} {
-				_, st, ok := g.forward(pc, q.Raw, tracer)
+			type variant struct {
+				tracer bool
+				ext    int
+			}
+			variants := []variant{{true, extNone}, {true, extHBH}, {true, extE2E}, {true, extBoth}, {false, extNone}}
+			for _, v := range variants {
+				tracer := v.tracer
+				_, st, ok := g.forwardExt(pc, q.Raw, tracer, v.ext)
 				if !ok {
 					continue
 				}
 				side := map[bool]string{true: "ingress", false: "egress"}[ingressFlag]
-				g.e.Case(fpb+side+fmt.Sprint(tracer), "inject/alert-"+side+"/"+st.kind, ifid == 0)
+				g.e.Case(fpb+side+fmt.Sprint(tracer)+extNames[v.ext], "inject/alert-"+side+"/"+extNames[v.ext]+"/"+st.kind, ifid == 0)
 				if ifid == 0 {
 					// flag on a side where the packet does not cross an AS border: no router owns it and the
 					// statement demands nothing
@@ -655,9 +669,10 @@ func (g *engine) c10(pc pathCase, thorough bool) {
 							g.replay(pc, map[string]any{"hop": j, "modified_path": hex.EncodeToString(q.Raw)}))
 						continue
 					}
-					g.expectReply(pc, st, fmt.Sprintf("%s: traceroute with %s alert on interface %d", base, side, ifid),
+					g.expectReply(pc, st, fmt.Sprintf("%s: traceroute request (%s) with %s alert on interface %d", base,
+						extNames[v.ext], side, ifid),
 						"C10/traceroute-"+side, int(slayers.SCMPTypeTracerouteReply), A.IA.String(), uint64(ifid),
-						map[string]any{"hop": j, "modified_path": hex.EncodeToString(q.Raw)})
+						map[string]any{"hop": j, "extensions": extNames[v.ext], "modified_path": hex.EncodeToString(q.Raw)})
 				} else if alerted {
 					// not a traceroute request: whatever the router sends in response must still reach the source
 					g.expectReply(pc, st, fmt.Sprintf("%s: UDP packet with %s router alert on interface %d", base, side, ifid),
